@@ -3,7 +3,7 @@ import re
 from .lrcommon import *
 
 LEVEL = "other"
-STRAYS = ["!", "#", "%", "&", "'", "~", "`", "\\", "^", "@", "@lef", "$", "$x", '"abc', '"', "/abc", "/* never closed", "é", "\x7f", "0"]
+STRAYS = ["\x00", "!", "#", "%", "&", "'", "~", "`", "\\", "^", "@", "@lef", "$", "$x", '"abc', '"', "/abc", "/* never closed", "é", "\x7f", "0"]
 
 
 def parse_scan(o):
